@@ -9,7 +9,9 @@ import (
 	"math/rand"
 	"os"
 	"strconv"
+	"strings"
 	"sync"
+	"sync/atomic"
 	"time"
 )
 
@@ -23,21 +25,22 @@ type Violation struct {
 // Result is written as JSON to the --out file.
 type Result struct {
 	mu          sync.Mutex
-	Evaluations int64       `json:"evaluations"`
-	Distinct    int64       `json:"distinct_nontrivial"`
-	Traces      int64       `json:"traces"`
-	Samples     []any       `json:"samples"`
-	Violations  []Violation `json:"violations"`
-	Infra       string      `json:"infra,omitempty"`
+	Evaluations int64          `json:"evaluations"`
+	Distinct    int64          `json:"distinct_nontrivial"`
+	Traces      int64          `json:"traces"`
+	Samples     []any          `json:"samples"`
+	Violations  []Violation    `json:"violations"`
+	Infra       string         `json:"infra,omitempty"`
 	Extra       map[string]any `json:"extra,omitempty"`
 	seen        map[string]int
+	total       int
 }
 
 func NewResult() *Result { return &Result{seen: map[string]int{}, Extra: map[string]any{}} }
 
-func (r *Result) Eval(n int64) { r.mu.Lock(); r.Evaluations += n; r.mu.Unlock() }
+func (r *Result) Eval(n int64)       { r.mu.Lock(); r.Evaluations += n; r.mu.Unlock() }
 func (r *Result) NonTrivial(n int64) { r.mu.Lock(); r.Distinct += n; r.mu.Unlock() }
-func (r *Result) Trace(n int64) { r.mu.Lock(); r.Traces += n; r.mu.Unlock() }
+func (r *Result) Trace(n int64)      { r.mu.Lock(); r.Traces += n; r.mu.Unlock() }
 
 func (r *Result) Sample(s any) {
 	r.mu.Lock()
@@ -52,6 +55,12 @@ func (r *Result) Violate(key string, c any, format string, a ...any) {
 	r.mu.Lock()
 	defer r.mu.Unlock()
 	r.seen[key]++
+	r.total++
+	// a deviation that costs a watchdog timeout each time, or a flood of deviations, ends the replay
+	// early: the verdict is already decided and the remaining cases would only burn time
+	if r.total >= 60 || (r.seen[key] >= 3 && (strings.Contains(key, "blocked") || strings.Contains(key, "stalled"))) {
+		atomic.StoreInt32(&StopEarly, 1)
+	}
 	if r.seen[key] > 20 {
 		return
 	}
@@ -84,6 +93,9 @@ func (r *Result) Write(path string) {
 	}
 }
 
+// StopEarly is set when continuing the replay is pointless (see Violate).
+var StopEarly int32
+
 // ReadCases streams ndjson records from path into fn.
 func ReadCases(path string, fn func(raw json.RawMessage) error) error {
 	f, err := os.Open(path)
@@ -97,6 +109,9 @@ func ReadCases(path string, fn func(raw json.RawMessage) error) error {
 		b := sc.Bytes()
 		if len(b) == 0 {
 			continue
+		}
+		if atomic.LoadInt32(&StopEarly) != 0 {
+			break
 		}
 		cp := make([]byte, len(b))
 		copy(cp, b)
